@@ -666,3 +666,116 @@ func check(model porcupine.Model, done []*hop, upto int64) porcupine.CheckResult
 	}
 	return porcupine.CheckOperationsTimeout(model, ops, 10*time.Second)
 }
+
+// shared batch ----------------------------------------------------------------------------------------
+//
+// One BatchedMutations object used by several tasks at once (it guards itself with a lock, so that is a use it is
+// built for): fillers record writes of keys nobody else touches while committers commit the same batch. A write
+// whose Set/Delete call had returned before a Commit call was invoked is part of that committed batch: it has taken
+// effect when the Commit returns - and every recorded write has taken effect once a last Commit, invoked after
+// everything has come to rest, has returned. (Whether a batch keeps or drops its writes after a Commit is not
+// judged: the keys are written once and by the batch only, so re-applying them changes nothing.)
+
+type sbWrite struct {
+	key      string
+	val      string
+	del      bool
+	inv, ret uint64
+	err      error
+}
+
+func sharedBatchBody(s *simrt.Sim) {
+	base := mapdb.NewMapDB()
+	var dbg int
+	realm := concRealms[s.Choose(len(concRealms))]
+	raw, err := base.WithRealm([]byte(realm))
+	if err != nil {
+		s.Fail("contract", "WithRealm-error", "view creation on an open store failed: %v", err)
+	}
+	k := s.Choose(len(stackNames))
+	st := wrap(k, raw, func(debug.Command, ...[]byte) { dbg++ })
+	s.Logf("store = %s realm %q", stackNames[k], realm)
+	b, err := st.Batched()
+	if err != nil {
+		s.Fail("contract", "Batched-error", "Batched on an open store failed: %v", err)
+	}
+	var writes []*sbWrite
+	nf := 2 + s.Choose(2)
+	for fi := 0; fi < nf; fi++ {
+		n := 1 + s.Choose(3)
+		var mine []*sbWrite
+		for j := 0; j < n; j++ {
+			w := &sbWrite{key: fmt.Sprintf("f%d.%d", fi, j), val: fmt.Sprintf("v%d.%d", fi, j), del: s.Choose(4) == 3}
+			if w.del {
+				// the key exists before anybody starts
+				if err := st.Set([]byte(w.key), []byte("old")); err != nil {
+					s.Fail("contract", "Set-error", "initial Set failed: %v", err)
+				}
+			}
+			mine = append(mine, w)
+			writes = append(writes, w)
+		}
+		yields := s.Choose(3)
+		s.Go(fmt.Sprintf("filler%d", fi), func() {
+			for _, w := range mine {
+				for i := 0; i < yields; i++ {
+					simrt.Yield()
+				}
+				w.inv = s.Tick()
+				if w.del {
+					w.err = b.Delete([]byte(w.key))
+				} else {
+					w.err = b.Set([]byte(w.key), []byte(w.val))
+				}
+				w.ret = s.Tick()
+				s.Logf("[%d,%d] batch write %s del=%v err=%v", w.inv, w.ret, w.key, w.del, w.err)
+				if w.err != nil {
+					s.Fail("contract", "batch-op-error", "batch operation on an open store failed: %v", w.err)
+				}
+			}
+		})
+	}
+	visible := func(w *sbWrite) (bool, string) {
+		got, err := st.Get([]byte(w.key))
+		if w.del {
+			return errors.Is(err, kvstore.ErrKeyNotFound), fmt.Sprintf("Get = (%q,%v), want it deleted", got, err)
+		}
+		return err == nil && string(got) == w.val, fmt.Sprintf("Get = (%q,%v), want %q", got, err, w.val)
+	}
+	commit := func(who string) {
+		inv := s.Tick()
+		err := b.Commit()
+		s.Logf("[%d,%d] %s: Commit err=%v", inv, s.Tick(), who, err)
+		if err != nil {
+			s.Fail("contract", "Commit-error", "%s: Commit failed with %v", who, err)
+		}
+		for _, w := range writes {
+			if w.ret != 0 && w.ret < inv {
+				if ok, what := visible(w); !ok {
+					s.Fail("batch-write-lost", "recorded-before-commit-invoked", "%s: the batch write of %s had returned (step %d) before this Commit was invoked (step %d), but after the Commit %s", who, w.key, w.ret, inv, what)
+				}
+			}
+		}
+	}
+	nc := 1 + s.Choose(2)
+	for ci := 0; ci < nc; ci++ {
+		n := 1 + s.Choose(3)
+		yields := s.Choose(4)
+		s.Go(fmt.Sprintf("committer%d", ci), func() {
+			for j := 0; j < n; j++ {
+				for i := 0; i < yields; i++ {
+					simrt.Yield()
+				}
+				commit(fmt.Sprintf("committer%d", ci))
+			}
+		})
+	}
+	left := s.Quiesce()
+	hx.Stuck(s, "deadlock", left, nil)
+	commit("last")
+	for _, w := range writes {
+		if ok, what := visible(w); !ok {
+			s.Fail("batch-write-lost", "after-last-commit", "the batch write of %s (call [%d,%d], no error) never took effect: after a last Commit, invoked when everything had come to rest, %s", w.key, w.inv, w.ret, what)
+		}
+	}
+}
